@@ -206,11 +206,13 @@ def _pit_sections(net, pipe_label):
     return out
 
 
-def _law_bound(fric, mdot, tight, tol_p, tol_m):
+def _law_bound(fric, mdot, tight, tol_p, tol_m, tol_res=1e-3):
     if tight:
         return 1e-7 + 1e-6 * abs(fric)
+    # The solver accepts a state whose residual is within tol_res and whose last changes are within tol_p / tol_m;
+    # with an inexact Jacobian (Colebrook derivative for reverse flow) the residual need not shrink further.
     dm = abs(2 * fric / mdot) * tol_m if mdot else 0.0
-    return 1e-7 + 1e-6 * abs(fric) + 2 * tol_p + dm
+    return 1e-7 + 1e-6 * abs(fric) + 2 * tol_p + dm + tol_res
 
 
 def mon_c02(net, obs, opts):
@@ -218,7 +220,8 @@ def mon_c02(net, obs, opts):
     gas = bool(fluid.is_gas)
     model = opts.get("friction_model", "nikuradse")
     tol_p, tol_m = opts.get("tol_p", 1e-5), opts.get("tol_m", 1e-5)
-    tight = tol_p <= 1e-8 and tol_m <= 1e-8
+    tol_res = opts.get("tol_res", 1e-3)
+    tight = tol_p <= 1e-8 and tol_m <= 1e-8 and tol_res <= 1e-8
     cb_tol = opts.get("tolerance_colebrook", 1e-4) if model == "colebrook" else 0.0
     pj = net.res_junction.p_bar
     hj = net.junction.height_m
@@ -237,7 +240,7 @@ def mon_c02(net, obs, opts):
         lam = ph.friction_factor(model, re, d, k, gas) if (re >= 1e-9 and want_lambda and L > 0) else 0.0
         static, fric, rho = ph.momentum_terms(fluid, m, p1, p2, h1, h2, t1, t2, d, L, lam, zeta)
         res = static - fric
-        bound = _law_bound(fric, m, tight, tol_p, tol_m)
+        bound = _law_bound(fric, m, tight, tol_p, tol_m, tol_res)
         if cb_tol and L > 0 and lam > 0:
             bound += abs(fric) * cb_tol / lam
         obs.count("law_sections_%s_%s" % ("gas" if gas else "liquid", regime))
@@ -251,7 +254,7 @@ def mon_c02(net, obs, opts):
         obs.maxi("max_friction_term_bar", abs(fric))
         if abs(res) > bound and zeta_alt is not None:
             _, fric_alt, _ = ph.momentum_terms(fluid, m, p1, p2, h1, h2, t1, t2, d, L, lam, zeta_alt)
-            if abs(static - fric_alt) <= _law_bound(fric_alt, m, tight, tol_p, tol_m) + (
+            if abs(static - fric_alt) <= _law_bound(fric_alt, m, tight, tol_p, tol_m, tol_res) + (
                     abs(fric_alt) * cb_tol / lam if cb_tol and lam > 0 else 0):
                 obs.violate("loss_coefficient_repeated_per_section",
                             "%s: the pipe's loss coefficient %.4g acts once per section (n sections lose n*zeta): "
@@ -300,7 +303,7 @@ def mon_c02(net, obs, opts):
                     obs.violate("pipe_section_count", "%s has %d pit sections, table says %d" % (el, len(secs), n))
                     continue
                 obs.count("multi_section_pipes")
-            res_, lams, vs, vdots = [], [], [], []
+            res_, lams, vs, vdots, lam_spread = [], [], [], [], []
             for s_i, s in enumerate(secs):
                 ha = h1 + (h2 - h1) * s_i / n
                 hb = h1 + (h2 - h1) * (s_i + 1) / n
@@ -310,6 +313,15 @@ def mon_c02(net, obs, opts):
                                                      zeta_alt=zeta if (n > 1 and zeta > 0) else None)
                 res_.append(re)
                 lams.append(lam)
+                if re >= 1e-9:
+                    # sensitivity of the friction factor to the admissible slack in the mass flow (Swamee-Jain and
+                    # Colebrook are singular at very small Reynolds numbers)
+                    rt_ = 1e-8 + 4 * tol_m / max(abs(s["mdot"]), 1e-300)
+                    try:
+                        lam_spread.append(abs(ph.friction_factor(model, re * (1 + rt_), d, k, gas)
+                                              - ph.friction_factor(model, re * max(1 - rt_, 1e-3), d, k, gas)))
+                    except (ValueError, ZeroDivisionError, OverflowError):
+                        lam_spread.append(float("inf"))
                 a = ph.area(d)
                 if gas:
                     vn = s["mdot"] / (rho_n * a)
@@ -337,7 +349,8 @@ def mon_c02(net, obs, opts):
                 tol = rt + (cb_tol / max(want, 1e-12) if col == "lambda" else 0.0)
                 if col == "lambda" and min(res_) < 1e-9:
                     continue
-                if not (rel(got, want) <= tol or abs(got - want) <= 1e-14):
+                extra = float(np.mean(lam_spread)) if (col == "lambda" and lam_spread) else 0.0
+                if not (rel(got, want) <= tol or abs(got - want) <= 1e-14 + extra):
                     obs.violate("derived_" + col, "%s: reported %s=%.10g, from reported mdot/p/T follows %.10g"
                                 % (el, col, got, want), element=el, column=col, reported=got, expected=want, rtol=tol)
                 else:
